@@ -252,7 +252,7 @@ UNIT = {
             assert(self.buf() =~= nb);
             assert(header.len == (nb.len() as usize) as u16);
             assert(header == pseudo_header(record.hdr, nb.len() as usize));
-        }"""}], "subst": [(r"len: self\.record_defrag_buffer\.len\(\) as u16,", "len: #[verifier::truncate] (self.record_defrag_buffer.len() as u16),")], "contract": """
+        }"""}], "subst": [(r"len: self\.record_defrag_buffer\.len\(\) as u16,", "len: #[verifier::truncate] (self.record_defrag_buffer.len() as u16),", "optional")], "contract": """
         ensures
             record_ok(St { buf: old(self).buf(), cur: old(self).cur() }, record.hdr, record.data@,
                       St { buf: final(self).buf(), cur: final(self).cur() }, r),
